@@ -15,21 +15,22 @@
 // whenever it fits, and it fits whenever the fold lies inside an in-window slider.
 //
 // Remaining assumptions about the caller (TraceHandler / the executor), exact text in the `requires` clauses:
-//   (1) `inv(fsm, dk)` for meet_iteration_start / prepare, `core_inv` for meet_generation_end / meet_fold_end: lemma `inv_grows`
-//       shows it follows from the postcondition of the previous FoldFSM call as soon as THE RESULT TRACE ONLY GROWS BETWEEN FSM
-//       CALLS (and, for meet_iteration_end / meet_back_iterator, that call was made in order: see (2));
-//   (2) the documented call order, stated on the FSM's own state: `can_start_iteration` (forward phase, previous iteration
-//       ended) is still a precondition of meet_iteration_start / prepare. Since the F13 fix (`current()` returns None,
-//       `traverse_back` saturates, NoFoldIterationStarted) meet_iteration_end and meet_back_iterator are TOTAL: their only
-//       precondition about the FSM is the queue's own pos <= len; `can_end_iteration` / `can_go_back` and `inv` have moved from
-//       `requires` into the antecedent of the implication that carries the C10 / C09 results. Both return
-//       Err(NoFoldIterationStarted) exactly when there is no iteration to work with (cursor 0; or back traversal running and
-//       cursor 1), the former without changing anything. meet_generation_end and meet_fold_end need no call-order assumption,
-//       but meet_generation_end still needs `core_inv` (into_subtrace_lore subtracts positions): a `next` executed out of order
-//       and NOT answered by an error (a second meet_iteration_end on the same iteration) leaves a ctor outside its typestate
-//       invariant -- the executor (unit fold_exec) aborts the run on the NoFoldIterationStarted that follows in every such case
-//       found, but that is an argument about Next::execute, not a contract of this file. `fold_protocol_replayed` shows (1) +
-//       the real order imply all of (2);
+//   (1) `core_inv(fsm, dk)` for meet_generation_end / meet_fold_end (into_subtrace_lore subtracts positions, the placeholder must lie
+//       inside the result trace): lemma `inv_grows` shows it follows from the postcondition of the previous FoldFSM call as soon
+//       as THE RESULT TRACE ONLY GROWS BETWEEN FSM CALLS and that call was made in order (see (2));
+//   (2) the documented call order, stated on the FSM's own state -- `can_start_iteration` (forward phase, previous iteration
+//       ended), `can_end_iteration` (an iteration is open), `can_go_back` (pos >= 1, and >= 2 once the back traversal runs) -- is
+//       NO LONGER a precondition of anything. Since the F13 fix (`current()` returns None, `traverse_back` saturates,
+//       NoFoldIterationStarted) meet_iteration_start / prepare / meet_iteration_end / meet_back_iterator are TOTAL: the only thing
+//       the first two need of the FSM is the queue's own invariant pos <= len (established by from_fold_start, kept by every
+//       method whatever the order), the last two need nothing. The call-order facts and `inv` are the ANTECEDENTS of the
+//       implications that carry the C10 / C09 results. meet_iteration_end / meet_back_iterator return Err(NoFoldIterationStarted)
+//       exactly when there is no iteration to work with (cursor outside 1..=len: nothing changes; or back traversal running and
+//       cursor 1: nothing to come back to). A `next` executed out of order and answered by Ok (a second meet_iteration_end on
+//       the same iteration) can leave a ctor outside its typestate invariant, i.e. without (1) for the generation end: the
+//       executor aborts the run on the NoFoldIterationStarted that follows in every such case found (Next::execute calls
+//       meet_back_iterator or meet_iteration_start right after), but that is an argument about Next::execute, not a contract of
+//       this file. `fold_protocol_replayed` shows that the real order implies all of (2) and (1);
 //   (3) standing: `dk.wf()` (slider invariant of slider.rs) and `rlen <= u32::MAX` (`trace_states_count()` `expect`s it).
 //
 // Callees.  External_body stubs whose contracts are copied mechanically (`//@ stub`): par_builder
@@ -550,8 +551,8 @@ pub open spec fn shape(f: FoldFSM) -> bool {
 }
 pub open spec fn inv(f: FoldFSM, dk: DataKeeper) -> bool { core_inv(f, dk) && shape(f) }
 
-// CALL-ORDER TYPESTATE (in the vocabulary of the FSM's own state). `can_start_iteration` is assumed from the executor (a `requires`);
-// since the F13 fix the other two are only antecedents of the C10 implications of meet_iteration_end / meet_back_iterator, which are total.
+// CALL-ORDER TYPESTATE (in the vocabulary of the FSM's own state). Since the F13 fix none of the three is a precondition: they are
+// the antecedents of the C10 implications of meet_iteration_start / prepare / meet_iteration_end / meet_back_iterator, which are total.
 // meet_iteration_start: only in the forward phase, and only after the previous iteration's meet_iteration_end
 pub open spec fn can_start_iteration(f: FoldFSM) -> bool {
     !f.started() && (f.pos() >= 1 ==> f.q()[f.pos() - 1].ctor.st() is BeforeCompleted)
@@ -609,11 +610,13 @@ impl FoldFSM {
 //@ rewrite 1 "current_pos.and_then(|pos| self.current_fold.lore.remove(pos))" => "match current_pos { Some(pos) => self.current_fold.lore.remove(pos), None => None }"
 //@ spec
         requires
-            inv(*old(self), *old(data_keeper)),          // the one assumption about the keeper: follows by inv_grows
-            can_start_iteration(*old(self)),             // call order (assumed, listed)
+            // TOTAL: no call-order precondition; only the queue's own invariant pos <= len (`back_traversal_pos += 1`), which
+            // from_fold_start establishes and every method keeps whatever the call order
+            old(self).pos() <= old(self).q().len(),
             old(data_keeper).wf(), old(data_keeper).rlen() <= u32::MAX,
             // nothing about value_pos, the position maps and the lore maps: they are hostile
         ensures
+            final(self).pos() <= final(self).q().len(),
             final(data_keeper).wf(), final(data_keeper).same_traces(old(data_keeper)), final(data_keeper).sliders_only(old(data_keeper)),
             // the FSM: besides the queue only the two (hostile) lore maps lose an entry
             final(self).pf().fold_states_count == old(self).pf().fold_states_count
@@ -631,7 +634,8 @@ impl FoldFSM {
                 &&& lore_applied_both(*old(data_keeper), *final(data_keeper), final(self).q().last().prev_lore,
                                       final(self).q().last().current_lore, ByNextPosition::Before, true)
             },
-            inv(*final(self), *final(data_keeper)),
+            // C10, in call order (`can_start_iteration`) under the struct invariant (follows by inv_grows): the invariant is kept
+            (inv(*old(self), *old(data_keeper)) && can_start_iteration(*old(self))) ==> inv(*final(self), *final(data_keeper)),
 //@ end
 
 //@ lift crates/air-lib/trace-handler/src/state_automata/fold_fsm.rs :: impl FoldFSM :: fn prepare
@@ -639,11 +643,11 @@ impl FoldFSM {
 //@ ret r
 //@ spec
         requires
-            inv(*old(self), *old(data_keeper)),          // the one assumption about the keeper: follows by inv_grows
-            can_start_iteration(*old(self)),             // call order (assumed, listed)
+            old(self).pos() <= old(self).q().len(),      // the queue's own invariant; no call-order precondition
             old(data_keeper).wf(), old(data_keeper).rlen() <= u32::MAX,
             // nothing about prev_lore / current_lore / value_pos: they are hostile
         ensures
+            final(self).pos() <= final(self).q().len(),
             // the keeper: only the sliders move, as apply_fold_lore_before is proved to move them
             final(data_keeper).wf(), final(data_keeper).same_traces(old(data_keeper)), final(data_keeper).sliders_only(old(data_keeper)),
             lore_applied_both(*old(data_keeper), *final(data_keeper), prev_lore, current_lore, ByNextPosition::Before, r is Ok),
@@ -657,7 +661,7 @@ impl FoldFSM {
                 &&& final(self).q().last().ctor.st() is BeforeStarted && final(self).q().last().ctor.vpos() == value_pos
                 &&& final(self).q().last().ctor.sb() == old(data_keeper).rlen()
             },
-            inv(*final(self), *final(data_keeper)),
+            (inv(*old(self), *old(data_keeper)) && can_start_iteration(*old(self))) ==> inv(*final(self), *final(data_keeper)),
 //@ end
 
 // TOTAL since the F13 fix: `current()` returns None instead of panicking and the method returns NoFoldIterationStarted. No call-order
@@ -668,11 +672,10 @@ impl FoldFSM {
 //@ ret r
 //@ spec
         requires
-            old(self).pos() <= old(self).q().len(),
             data_keeper.rlen() <= u32::MAX,
         ensures
             // C01: Err exactly when there is no current iteration, it is NoFoldIterationStarted, and nothing changed
-            r is Err <==> old(self).pos() == 0,
+            r is Err <==> !(1 <= old(self).pos() <= old(self).q().len()),
             r matches Err(e) ==> e is NoFoldIterationStarted && final(self).q() == old(self).q(),
             final(self).same_but_queue(old(self)), final(self).started() == old(self).started(), final(self).pos() == old(self).pos(),
             final(self).q().len() == old(self).q().len(),
@@ -693,19 +696,20 @@ impl FoldFSM {
 //@ ret r
 //@ spec
         requires
-            old(self).pos() <= old(self).q().len(),
             old(data_keeper).wf(), old(data_keeper).rlen() <= u32::MAX,
         ensures
             final(data_keeper).wf(), final(data_keeper).same_traces(old(data_keeper)), final(data_keeper).sliders_only(old(data_keeper)),
-            final(self).same_but_queue(old(self)), final(self).q().len() == old(self).q().len(), final(self).pos() <= final(self).q().len(),
+            final(self).same_but_queue(old(self)), final(self).q().len() == old(self).q().len(),
+            old(self).pos() <= old(self).q().len() ==> final(self).pos() <= final(self).q().len(),
             // C01: the new error, exactly
-            (r matches Err(e) && e is NoFoldIterationStarted) <==> (old(self).pos() == 0 || (old(self).started() && old(self).pos() == 1)),
+            (r matches Err(e) && e is NoFoldIterationStarted) <==>
+                (!(1 <= old(self).pos() <= old(self).q().len()) || (old(self).started() && old(self).pos() == 1)),
             // no current iteration at all: nothing changed
-            old(self).pos() == 0 ==> final(self).q() == old(self).q() && final(self).pos() == 0 && final(self).started() == old(self).started()
-                && *final(data_keeper) == *old(data_keeper),
+            !(1 <= old(self).pos() <= old(self).q().len()) ==> final(self).q() == old(self).q() && final(self).pos() == old(self).pos()
+                && final(self).started() == old(self).started() && *final(data_keeper) == *old(data_keeper),
             // the first call of a generation turns round at the last iteration; every later one steps back by one
-            (!old(self).started() && old(self).pos() >= 1) ==> final(self).pos() == old(self).pos() && (r is Ok ==> final(self).started()),
-            old(self).started() ==> final(self).pos() == (if old(self).pos() >= 1 { old(self).pos() - 1 } else { 0 }) && final(self).started(),
+            !old(self).started() ==> final(self).pos() == old(self).pos() && (r is Ok ==> final(self).started()),
+            (old(self).started() && 1 <= old(self).pos() <= old(self).q().len()) ==> final(self).pos() == old(self).pos() - 1 && final(self).started(),
             // C10 / C09, in call order (`can_go_back`) under the struct invariant: everything the contract said before the fix
             (inv(*old(self), *old(data_keeper)) && can_go_back(*old(self))) ==> {
                 &&& !(r matches Err(e) && e is NoFoldIterationStarted)
@@ -839,8 +843,8 @@ pub fn executor_runs_body(dk: &mut DataKeeper)
 // meet_iteration_end and, if there is a next value, meet_iteration_start back to back; at the last value
 // meet_iteration_end and meet_back_iterator back to back; coming back from the nested `next`, meet_back_iterator again),
 // with arbitrary executor activity wherever an instruction body runs.  Every invariant AND every call-order
-// condition (`can_start_iteration` as a precondition; `can_end_iteration`, `can_go_back` as the antecedents of the C10
-// implications, hence `current()` is always Some here) is discharged from the previous postcondition and `executor_runs_body` alone, and C10 comes
+// condition (`can_start_iteration`, `can_end_iteration`, `can_go_back`: the antecedents of the C10 implications, hence
+// `current()` is always Some here) is discharged from the previous postcondition and `executor_runs_body` alone, and C10 comes
 // out end to end: the Fold state at the fold's own position n0 has one entry per iteration, each with exactly two
 // descriptors, and the four ranges  before(1) before(2) after(2) after(1)  partition the entries n0+1 .. n without gap
 // or overlap.  C09: a fold lying inside an in-window slider leaves that slider right behind all of the fold's states.
